@@ -514,4 +514,13 @@ def gen_c11(rnd, syms, tier):
                 opt = rnd.choice(TYPE_OPTIONS)
                 col = rnd.choice(['white', '#fff']) if opt.endswith('dark') or opt == 'dark_module' else rnd.choice(['black', '#000'])
                 add(v, rnd.choice(['png', 'svg']), {opt: col, 'border': rnd.choice([0, 1, None])}, 'colourful:two-tone')
+            # a transparent type next to the first colours of the CSS table (the writer picks its stand-in colour for
+            # "transparent" from that table: it must not collide with a colour the picture uses)
+            if rnd.random() < 0.35:
+                near = rnd.sample(['aliceblue', '#f0f8ff', (240, 248, 255), 'antiquewhite', '#faebd7', 'aqua', 'aquamarine', 'azure'], 3)
+                opts = rnd.sample([o for o in TYPE_OPTIONS if o not in ('quiet_zone',)], 3)
+                kw = {opts[0]: near[0], opts[1]: near[1], opts[2]: near[2], 'light': None, 'dark': rnd.choice(['navy', 'black', '#123'])}
+                if rnd.random() < 0.5:
+                    kw[rnd.choice(['data_light', 'quiet_zone', 'separator'])] = None
+                add(v, 'png', kw, 'colourful:transparent-standin')
     return cases
